@@ -2,7 +2,11 @@
 EXTENDS Relational, Json
 MCAVals == {N, 1, 2}
 MCBVals == {N, 0, 1, 5}
-Emit == PrintT(<<"T", ToJson([hist |-> hist'])>>)
+\* which single-row INSERTs the table accepts after the behaviour (C09: the constraint state itself is probed, so an
+\* index that silently lost or kept an entry shows even if every statement so far returned the right result)
+ProbeRows == {Row(i, a, 0) : i \in Ids, a \in MCAVals}
+Accepts == {r \in ProbeRows : DoInsert(rows', <<r>>).ok}
+Emit == PrintT(<<"T", ToJson([hist |-> hist', accept |-> Accepts, intxn |-> txn' # <<>>])>>)
 
 (***************************************************************************)
 (* Workload generation for the crash checks (C01, C02, C40): the same      *)
